@@ -220,7 +220,44 @@ def junction_stream(ctx):
             ctx.oracle_failure(info, fails, {})
 
 
+def float32_sum_stream(ctx):
+    """min_sum on single-precision data: one pixel of 2**24 and a few small ones, the threshold next to their exact sum.
+    After prune(is_independent=min_sum(T)) every leaf must really sum to at least T, and the result must be what
+    compute(is_independent=min_sum(T)) gives.  Oracle only."""
+    from astrodendro import Dendrogram, pruning
+    rng = ctx.rng('c07-f32sum')
+    for it in range(80 if ctx.quick else 800):
+        k = rng.randint(2, 5)
+        left = [rng.choice([1, 2, 3, 0.5, 0.25]) for _ in range(k)]
+        right = [rng.choice([1, 2, 3, 0.5]) for _ in range(rng.randint(1, 3))]
+        vals = left[:1] + [2.0 ** 24] + left[1:] + [0.125] + [3e7] + right
+        arr = np.array(vals, dtype=np.float32)
+        exact = sum(left) + 2.0 ** 24
+        T = exact + rng.choice([0, 0.5, 1, 1.5, 2, -0.5])
+        info = {'stream': 'float32 sums', 'data': vals, 'min_sum': T}
+        try:
+            d = Dendrogram.compute(arr.copy(), min_value=0)
+            d.prune(is_independent=pruning.min_sum(T))
+            ref = Dendrogram.compute(arr.copy(), min_value=0, is_independent=pruning.min_sum(T))
+        except Exception as e:
+            ctx.oracle_failure(info, ['raised %r' % (e,)], {})
+            continue
+        ctx.count('float32_sum_cases')
+        ctx.case_done(None, ('f32sum', tuple(vals), T))
+        fails = []
+        for s_ in d.leaves:
+            tot = sum(float(x) for x in s_.values(subtree=False))          # exact: small integers and halves
+            if tot < T:
+                fails.append('after prune(min_sum(%r)) leaf %d sums to %r' % (T, s_.idx, tot))
+        h1, h2 = impl.impl_hierarchy(d, (len(vals),)), impl.impl_hierarchy(ref, (len(vals),))
+        if h1 != h2:
+            fails.append('compute().prune(min_sum) %s differs from compute(min_sum) %s' % (h1, h2))
+        if fails:
+            ctx.oracle_failure(info, fails[:3], {})
+
+
 def explore(ctx):
+    float32_sum_stream(ctx)
     junction_stream(ctx)
     level_criterion_stream(ctx)
     rng = ctx.rng('c07')
